@@ -106,6 +106,9 @@ def emit_kcase_text(case, res, index=0):
     o += [CMODE_ID[cfg["cmode"]], cfg["octave"], cfg["semitone"], cfg["channel"], cfg["mapping"], cfg["velocity"]]
     o.append(len(case["events"]))
     for e in case["events"]:
+        if e["t"] == "o":      # not interpreted by the device: for the extracted model the same as an autorepeat event (value 2 = ignored, state unchanged)
+            o += [0, e["code"], 2]
+            continue
         if e["t"] != "k":
             raise ValueError(e)
         o += [sid[e["sub"]], e["code"], e["val"]]
